@@ -146,6 +146,23 @@ CORPUS["C05"] = [
     B("clamp mask flipped", (TAUS, "self.pexit_grid.data[self.pexit_grid.data <= 0] =", "self.pexit_grid.data[0 >= self.pexit_grid.data] =")),
 ]
 
+CORPUS["C06"] = [
+    M("cancelling 1 - cos form brought back", (CPH, "        athetaj = 4.0 * np.sin(0.5 * athetaj, dtype=self.dtype) ** 2", "        athetaj = 2.0 * (1.0 - np.cos(athetaj, dtype=self.dtype))")),
+    M("one-degree clamp removed", (CPH, "        betaE = self.dtype(\n            np.radians(self.dtype(1)) if betaE < np.radians(1.0) else betaE\n        )", "        betaE = self.dtype(betaE)")),
+    M("clamp to 1 radian instead of 1 degree", (CPH, "            np.radians(self.dtype(1)) if betaE < np.radians(1.0) else betaE", "            self.dtype(1) if betaE < np.radians(1.0) else betaE")),
+    M("stepper arguments swapped", (CPH, "            z, sinThetView, self.RadE, self.zMaxZ, self.zmax, self.dL, self.pi", "            z, sinThetView, self.RadE, self.zmax, self.zMaxZ, self.dL, self.pi")),
+    M("grammage column summed in the wrong direction", (CPH, "        delgram = np.cumsum(delgram_vals[::-1])[::-1]", "        delgram = np.cumsum(delgram_vals)")),
+    M("einsum output axes swapped", (CPH, '        uhill = np.einsum("zj,ze->zje", athetaj, poweha, dtype=self.dtype)', '        uhill = np.einsum("zj,ze->zej", athetaj, poweha, dtype=self.dtype)')),
+    M("photon sum keeps the wavelength axis", (CPH, '        photsum = np.einsum("zje,zw->", svtrm, sigval, dtype=self.dtype)', '        photsum = np.einsum("zje,zw->w", svtrm, sigval, dtype=self.dtype).max()')),
+    M("step size doubled", (CPH, "        self.dL = self.dtype(0.1)  # parin(1) step size km", "        self.dL = self.dtype(0.2)  # parin(1) step size km")),
+    M("early exit returns a non-zero density", (CPH, "        if zs[-2] < cloud_top_height:\n            return self.dtype(0), self.dtype(0)", "        if zs[-2] < cloud_top_height:\n            return self.dtype(1e-3), self.dtype(0)")),
+    M("expm1 spelled as exp - 1", (CPH, "        DistStep = np.sin(AngE, dtype=self.dtype)", "        DistStep = np.sin(AngE, dtype=self.dtype) + 0 * (np.exp(AngE) - 1.0)")),
+    B("einsum index letters renamed", (CPH, '        uhill = np.einsum("zj,ze->zje", athetaj, poweha, dtype=self.dtype)', '        uhill = np.einsum("sr,se->sre", athetaj, poweha, dtype=self.dtype)')),
+    B("clamp as a statement", (CPH, "        betaE = self.dtype(\n            np.radians(self.dtype(1)) if betaE < np.radians(1.0) else betaE\n        )", "        if betaE < np.radians(1.0):\n            betaE = np.radians(self.dtype(1))\n        betaE = self.dtype(betaE)")),
+    B("remaining sum with np.flip", (CPH, "        delgram = np.cumsum(delgram_vals[::-1])[::-1]", "        delgram = np.flip(np.cumsum(np.flip(delgram_vals)))")),
+    B("stable form with the factor split", (CPH, "        sthetaj = 4.0 * np.sin(0.5 * sthetaj, dtype=self.dtype) ** 2", "        half = np.sin(0.5 * sthetaj, dtype=self.dtype)\n        sthetaj = 4.0 * half * half")),
+]
+
 CORPUS["C07"] = [
     M("1e-3 -> 1e-2", (EAS, "lenDec = 1e-3 * tDec", "lenDec = 1e-2 * tDec")),
     M("shower energy / 1e9", (TAUS, "tauEnergy / 1e8", "tauEnergy / 1e9")),
